@@ -65,6 +65,20 @@ const D: &[&str] = &["discover"];
 const X: &[&str] = &["export"];
 const NONE: &[&str] = &[];
 
+/// Items that repeat a clause family another item already covers; they run
+/// in the thorough tier only.
+pub const THOROUGH_ONLY: &[&str] = &[
+    "lookup-prop", "whole-concepts", "count-distinct", "tuple-whole", "tuple-pred-var", "order-rank-desc",
+    "filter-name", "page-3", "limit-plain", "label-projection", "as-of-count", "search-hidden-token",
+    "search-readable-name", "search-props", "history-space-page2", "changes-page", "describe-space",
+    "list-types", "describe-type", "snapshot", "export-props", "export-root-readable",
+    "preview-update-hidden", "preview-ensure-hidden-endpoint",
+];
+
+pub fn battery_for(quick: bool) -> Vec<Item> {
+    battery().into_iter().filter(|i| !quick || !THOROUGH_ONLY.contains(&i.label)).collect()
+}
+
 pub fn battery() -> Vec<Item> {
     use Oracle::*;
     let mut v = vec![
